@@ -3,6 +3,7 @@ package main
 import (
 	"fmt"
 	"go/token"
+	"go/types"
 	"strings"
 
 	"golang.org/x/tools/go/ssa"
@@ -10,12 +11,12 @@ import (
 
 func init() {
 	register(&Property{
-		ID:        "C11",
-		Title:     "Ending a tunnel releases the backend connection and all per-tunnel resources",
-		DesignRef: "DESIGN.md §3 C11",
-		Technique: "acquire/release pairing on all exits over go/ssa (deferred releases count from the defer statement on; marker reachability from the acquire to every return), with resources stored in Tunnel fields followed to the owner scope (the handler that runs the packet loop)",
-		LevelText: "Static: the backend connection stored in Tunnel.rwc by the dial is closed by a deferred function of the packet loop that is registered before the dial and closes whenever the field is non-nil; the websocket connection and transport, the legacy IN connection and — when the IN leg's packet loop ends — the legacy OUT transport are closed on every exit after they were obtained; every RegisterTunnel is followed on all exits by RemoveTunnel of the same tunnel; every gauge increment is matched by a decrement of the same gauge on all exits; the relay goroutine reads exactly the connection that the deferred close closes and ends on its read error. Decides that each release is on every path; 'within a bounded time' and that Close interrupts a blocked read are library/timing facts.",
-		LevelNote: "Trusted: net.Conn.Close unblocks a pending Read; defers run on every exit including panics. Not decided: timing, go-cache expiry of legacy tunnel entries.",
+		ID:          "C11",
+		Title:       "Ending a tunnel releases the backend connection and all per-tunnel resources",
+		DesignRef:   "DESIGN.md §3 C11",
+		Technique:   "acquire/release pairing on all exits over go/ssa (deferred releases count from the defer statement on; marker reachability from the acquire to every return), with resources stored in Tunnel fields followed to the owner scope (the handler that runs the packet loop)",
+		LevelText:   "Static: the backend connection stored in Tunnel.rwc by the dial is closed by a deferred function of the packet loop that is registered before the dial and closes whenever the field is non-nil; the websocket connection and transport, the legacy IN connection and — when the IN leg's packet loop ends — the legacy OUT transport are closed on every exit after they were obtained; every RegisterTunnel is followed on all exits by RemoveTunnel of the same tunnel; every gauge increment is matched by a decrement of the same gauge on all exits; the relay goroutine reads exactly the connection that the deferred close closes and ends on its read error. Decides that each release is on every path; 'within a bounded time' and that Close interrupts a blocked read are library/timing facts.",
+		LevelNote:   "Trusted: net.Conn.Close unblocks a pending Read; defers run on every exit including panics. Not decided: timing, go-cache expiry of legacy tunnel entries.",
 		Explanation: "Each rule names an acquire site and a release predicate; a return reachable from the acquire without executing the release call or a defer of it is a violation. C11/backend additionally analyses the deferred closure of Process (close whenever rwc != nil) and ties the relay goroutine's connection to Tunnel.rwc.",
 		Assumptions: []string{"a panic in the handler still runs the deferred releases (Go semantics)"},
 		Rules: []RuleDef{
@@ -235,7 +236,9 @@ func c11ClientTransports(c *Ctx) {
 	ws := c.Fn("cmd/rdpgw/protocol", "Gateway.handleWebsocketProtocol")
 	for _, ci := range callsTo(ws, modPath+"/cmd/rdpgw/transport.NewWS") {
 		tr := resultOf(ci, 0)
-		ok, where := releasedOnAllExits(ws, ci.(ssa.Instruction), func(x ssa.CallInstruction) bool { return isCloseOn(x, func(v ssa.Value) bool { return strip(v) == tr }) })
+		ok, where := releasedOnAllExits(ws, ci.(ssa.Instruction), func(x ssa.CallInstruction) bool {
+			return isCloseOn(x, func(v ssa.Value) bool { return strip(v) == tr })
+		})
 		msg := ""
 		if where != nil {
 			msg = " (return at " + c.P.Pos(where.Pos()) + ")"
@@ -244,23 +247,34 @@ func c11ClientTransports(c *Ctx) {
 	}
 	// legacy
 	lg := c.Fn("cmd/rdpgw/protocol", "Gateway.handleLegacyProtocol")
-	var process *ssa.Call
-	for _, ci := range callsTo(lg, "(*"+protoPkg+".Processor).Process") {
-		process = ci.(*ssa.Call)
-	}
 	inF := c.FieldVar("cmd/rdpgw/protocol", "Tunnel", "transportIn")
 	outF := c.FieldVar("cmd/rdpgw/protocol", "Tunnel", "transportOut")
-	for _, ci := range callsTo(lg, modPath+"/cmd/rdpgw/transport.NewLegacy") {
-		tr := resultOf(ci, 0)
-		// which leg? the transport stored into transportIn is the IN leg
-		isIn := false
-		eachInstr(lg, func(in ssa.Instruction) {
-			if s, ok := in.(*ssa.Store); ok && strip(s.Val) == tr {
-				if _, f, ok := fieldOfAddr(s.Addr); ok && f == inF {
-					isIn = true
+	storedInto := func(fn *ssa.Function, v ssa.Value, fld *types.Var) bool {
+		found := false
+		eachInstr(fn, func(in ssa.Instruction) {
+			if s, ok := in.(*ssa.Store); ok && strip(s.Val) == v {
+				if _, f, ok := fieldOfAddr(s.Addr); ok && f == fld {
+					found = true
 				}
 			}
 		})
+		return found
+	}
+	for _, ci := range callsTo(lg, modPath+"/cmd/rdpgw/transport.NewLegacy") {
+		tr := resultOf(ci, 0)
+		// which leg? the transport stored into transportIn (here, or by a helper it is handed to) is the IN leg
+		isIn := storedInto(lg, tr, inF)
+		for _, x := range callsIn(lg) {
+			callee := x.Common().StaticCallee()
+			if callee == nil || !IsFirstParty(callee) {
+				continue
+			}
+			for i, a := range x.Common().Args {
+				if strip(a) == tr && i < len(callee.Params) && storedInto(callee, callee.Params[i], inF) {
+					isIn = true
+				}
+			}
+		}
 		if !isIn {
 			continue // OUT leg: owned by the tunnel, closed when the IN leg's loop ends (below)
 		}
@@ -277,26 +291,57 @@ func c11ClientTransports(c *Ctx) {
 		if d, isDefer := first.(*ssa.Defer); isDefer && isCloseOn(d, func(v ssa.Value) bool { return strip(v) == tr }) {
 			ok = true
 		} else if first != nil {
-			ok, _ = releasedOnAllExits(lg, first, func(x ssa.CallInstruction) bool { return isCloseOn(x, func(v ssa.Value) bool { return strip(v) == tr }) })
+			ok, _ = releasedOnAllExits(lg, first, func(x ssa.CallInstruction) bool {
+				return isCloseOn(x, func(v ssa.Value) bool { return strip(v) == tr })
+			})
 		}
 		c.Check(ok, rule, "handleLegacyProtocol in-conn", ci.Pos(), "the hijacked RDG_IN_DATA connection is closed on every exit", "the hijacked RDG_IN_DATA connection is not closed on every exit")
 	}
-	if process == nil {
-		c.Undecided(rule, "handleLegacyProtocol process", lg.Pos(), "no packet loop call in the legacy handler")
-	} else {
-		// when the loop ends, the OUT transport of this tunnel is closed: on all exits after Process, or by a defer before it
-		isRel := func(x ssa.CallInstruction) bool { return isCloseOn(x, func(v ssa.Value) bool { return isFieldLoad(strip(v), outF) }) }
+	// when the loop ends, the OUT transport of this tunnel is closed: on all exits after Process, or by
+	// a defer before it — in the function that runs the loop, or in its only caller after the helper returns
+	isRel := func(x ssa.CallInstruction) bool {
+		return isCloseOn(x, func(v ssa.Value) bool { return isFieldLoad(strip(v), outF) })
+	}
+	var closedAfter func(fn *ssa.Function, at ssa.Instruction, depth int) bool
+	closedAfter = func(fn *ssa.Function, at ssa.Instruction, depth int) bool {
 		deferred := false
-		eachInstr(lg, func(in ssa.Instruction) {
-			if d, ok := in.(*ssa.Defer); ok && isRel(d) && dominatesInstr(d, process) {
+		eachInstr(fn, func(in ssa.Instruction) {
+			if d, ok := in.(*ssa.Defer); ok && isRel(d) && dominatesInstr(d, at) {
 				deferred = true
 			}
 		})
-		ok := deferred
-		if !ok {
-			ok, _ = releasedOnAllExits(lg, process, isRel)
+		if deferred {
+			return true
 		}
-		c.Check(ok, rule, "handleLegacyProtocol out-transport", process.Pos(), "the tunnel's RDG_OUT_DATA connection is closed whenever the packet loop ends", "the hijacked RDG_OUT_DATA connection is not closed on every way the packet loop ends (e.g. only on error, not on an orderly channel close)")
+		if ok, _ := releasedOnAllExits(fn, at, isRel); ok {
+			return true
+		}
+		if fn == lg || depth > 1 {
+			return false
+		}
+		sites, okc := c.staticCallers(fn)
+		if !okc || len(sites) == 0 {
+			return false
+		}
+		for _, cs := range sites {
+			if !closedAfter(cs.Parent(), cs.(ssa.Instruction), depth+1) {
+				return false
+			}
+		}
+		return true
+	}
+	nProc := 0
+	for _, fn := range c.allFirstPartyFuncs() {
+		if fn != lg && !c.onlyCalledFrom(fn, lg, 0) {
+			continue
+		}
+		for _, ci := range callsTo(fn, "(*"+protoPkg+".Processor).Process") {
+			nProc++
+			c.Check(closedAfter(fn, ci.(ssa.Instruction), 0), rule, "handleLegacyProtocol out-transport", ci.Pos(), "the tunnel's RDG_OUT_DATA connection is closed whenever the packet loop ends", "the hijacked RDG_OUT_DATA connection is not closed on every way the packet loop ends (e.g. only on error, not on an orderly channel close)")
+		}
+	}
+	if nProc == 0 {
+		c.Undecided(rule, "handleLegacyProtocol process", lg.Pos(), "no packet loop call in the legacy handler")
 	}
 	c.Floor(rule, 4, "ws conn, ws transport, legacy in, legacy out")
 }
